@@ -3,6 +3,7 @@
 package adminapi
 
 import (
+	"time"
 	"bufio"
 	"fmt"
 	"net/http"
@@ -86,6 +87,13 @@ func TestVerifDriver(t *testing.T) {
 		}
 		w := strings.Fields(line)
 		res := "bad-op"
+		// an operation still running after 60 s is wedged: say so and stop instead of sitting out
+		// the test timeout (the main goroutine is stuck, so nobody else writes to `out`)
+		wedged := time.AfterFunc(60*time.Second, func() {
+			fmt.Fprintln(out, "hang")
+			out.Flush()
+			os.Exit(3)
+		})
 		if len(w) >= 2 && w[0] == "adm" {
 			switch w[1] {
 			case "new":
@@ -157,6 +165,7 @@ func TestVerifDriver(t *testing.T) {
 				}
 			}
 		}
+		wedged.Stop()
 		fmt.Fprintln(out, res)
 	}
 }
